@@ -29,6 +29,10 @@ extern int mpt_parse_format_enc(const MPT_STRUCT(parser_format) *fmt, MPT_STRUCT
 		/* no further data and no section end */
 		else if ((curr = mpt_parse_nextvis(&parse->src, fmt->com, sizeof(fmt->com))) < 0) {
 			parse->curr = 0;
+			/* source error is no regular end of input */
+			if (curr != -2) {
+				return MPT_ERROR(BadArgument);
+			}
 			return 0;
 		}
 		/* section start == end detected */
